@@ -123,6 +123,21 @@ func Build(spec engine.CartSpec) ([]byte, error) {
 		}
 		copy(img[entry:], prog)
 	}
+	if spec.CollidingPages && banks >= 8 {
+		// distinct pages that a checksum cannot tell apart: page j is page i with the CRC-32 generator
+		// polynomial XORed in (equal CRC-32), page k is page i with two bytes swapped (equal sum, XOR,
+		// byte histogram). The differing bytes sit where the checks look (the signature bytes).
+		i := 2 + int(spec.FillSeed%3)
+		j, k := banks-1-int(spec.FillSeed>>8%2), banks/2+1
+		copy(img[j*0x4000:(j+1)*0x4000], img[i*0x4000:(i+1)*0x4000])
+		for n, b := range []byte{0x41, 0x06, 0x71, 0xdb, 0x01} {
+			img[j*0x4000+0x3ff0+n] ^= b
+		}
+		if k != i && k != j {
+			copy(img[k*0x4000:(k+1)*0x4000], img[i*0x4000:(i+1)*0x4000])
+			img[k*0x4000+0x3ff0], img[k*0x4000+0x3ff2] = img[k*0x4000+0x3ff2], img[k*0x4000+0x3ff0]
+		}
+	}
 	if spec.HeaderEveryPage {
 		// like a multi-game cartridge: every page starts with a cartridge header of its own (logo, title,
 		// type and size bytes); the controller's behaviour is that of the declared type all the same
